@@ -30,11 +30,12 @@ PCS = [1, 3, 127, 255]
 OUTCOMES = {
     'echo': [0x0000, 0x0122, 'EHE'],
     'store': [0x0000, 0xB000, 0xB006, 0xA700, 0xC123, 0x0110, 'EHE'],
-    'find': ['ok0', 'ok2', 'EHE'],
+    'find': ['ok0', 'ok2', 'EHE', 'EHE-lazy0', 'EHE-lazy1', 'nested2'],
     'move': ['ok0', 'ok2', 'EHE'],
     'n_action': ['succ', 'fail', 'mixed', 'EHE'],
     'n_event_report': ['ok', 'EHE'],
     'get_store': [0x0000, 0xB000, 0xA700, 'EHE'],
+    'get_store2': [0x0000, 0xB000],
 }
 
 
@@ -79,6 +80,7 @@ def _ae_class():
     class SvcAE(applicationentity.AE):
         outcome = None
         sublog = None
+        nested = None
 
         def _st(self):
             if self.outcome == 'EHE':
@@ -94,7 +96,20 @@ def _ae_class():
         def on_receive_find(self, context, ds):
             if self.outcome == 'EHE':
                 raise exceptions.EventHandlingError('handler failed')
-            n = int(self.outcome[2:])
+            if self.outcome.startswith('EHE-lazy'):
+                k = int(self.outcome[8:])
+
+                def gen():
+                    for i in range(k):
+                        yield dsgen.make('a', i), statuses.C_FIND_PENDING
+                    raise exceptions.EventHandlingError('handler failed lazily')
+                return gen()
+            if self.outcome.startswith('nested') and self.nested is not None:
+                # while this request is being handled another association of the same entity serves a C-FIND
+                # with other identifiers (what a second handler thread would do in between)
+                fn, self.nested = self.nested, None
+                fn()
+            n = int(self.outcome[-1])
             return iter([(dsgen.make('a', i), statuses.C_FIND_PENDING) for i in range(n)])
 
         def on_receive_move(self, context, ds, destination):
@@ -153,7 +168,9 @@ def run_case(case):
     sae = assoc.make_ae('SCP', [TS], 65536, [sopclass.verification_scp, sopclass.storage_scp, sopclass.qr_find_scp,
                                              sopclass.qr_move_scp, sopclass.StorageCommitment()], cls=SvcAE)
     sae.outcome, sae.sublog = out, []
-    sop = {'echo': VERIF, 'store': CT, 'find': FIND, 'move': MOVE, 'n_action': COMMIT, 'n_event_report': COMMIT, 'get_store': CT}[svc]
+    sop = {'echo': VERIF, 'store': CT, 'find': FIND, 'move': MOVE, 'n_action': COMMIT, 'n_event_report': COMMIT, 'get_store': CT,
+           'get_store2': CT}[svc]
+    MR = '1.2.840.10008.5.1.4.1.1.4'
     # client side (for get_store the *client* is the entity under test)
     cae = SvcAE.__new__(SvcAE)
     applicationentity.AEBase.__init__(cae, [TS], 65536)
@@ -161,6 +178,38 @@ def run_case(case):
     cae.outcome, cae.sublog = out, []
     cae.add_scu(sopclass.qr_get_scu)
     cae.update_context_def_list([CT])
+    if svc == 'get_store2':
+        # two C-STORE sub-operations of one C-GET arriving on two different storage contexts
+        from pynetdicom2 import asceprovider
+        from pydicom import uid
+        cae.context_def_list = {}
+        pcs3 = [q for q in (1, 3, 5, 7, 9) if q != pc][:2]
+        getpc, pc2 = pcs3
+        for q, u in ((getpc, GET), (pc, CT), (pc2, MR)):
+            cae.context_def_list[q] = asceprovider.PContextDef(q, uid.UID(u), cae.supported_ts)
+        link = assoc.Link(sae, cae, {getpc: (GET, TS), pc: (CT, TS), pc2: (MR, TS)})
+        gen = link.scu.get_scu(GET)(dsgen.make('query'), 99)
+        link.scu.dul.pump = None
+        seq = [(pc2, MR, inst + '.9', (mid + 1) % 65536), (pc, CT, inst, mid), (pc2, MR, inst + '.8', (mid + 2) % 65536)]
+        for q, u, ii, m in seq:
+            link.scp.send(msggen.make('CStoreRQMessage', sop_class=u, sop_inst=ii, msg_id=m,
+                                      data_set=dsgen.enc(dsgen.make('a', sop_class=u, inst=ii), TS)), q)
+        link.scp.send(msggen.make('CGetRSPMessage', sop_class=GET, msg_id=99, status=0), getpc)
+        try:
+            list(gen)
+        except Exception as exc:
+            return {'viol': [(sig + ':raises', 'qr_get_scu raised %r (%s)' % (exc, where))], 'case': case, 'key': None}
+        got = []
+        for d, pdus in link.log:
+            if d == 'scu->scp' and isinstance(pdus, list):
+                cmd, data, flags = msggen.collect(pdus)
+                el = ref_cmd.read(cmd)
+                if ref_cmd.value(el, 0x0100) == 0x8001:
+                    got.append((flags[0][0], ref_cmd.value(el, 0x0002), ref_cmd.value(el, 0x1000), ref_cmd.value(el, 0x0120), ref_cmd.value(el, 0x0900)))
+        exp = [(q, u, ii, m, out) for q, u, ii, m in seq]
+        if got != exp:
+            viol.append((sig + ':responses', 'C-STORE responses (context, class, instance, msg id, status) %r, expected %r (%s)' % (got, exp, where)))
+        return {'viol': viol, 'case': case if viol else None, 'key': (svc, str(out), mid, pc, case['uidlen'])}
     if svc == 'get_store':
         # context ids known to the client AE: C-GET on 1.. and the storage context under `pc`
         cae.context_def_list = {}
@@ -195,6 +244,15 @@ def run_case(case):
             req = msggen.make('CStoreRQMessage', sop_class=CT, sop_inst=inst, msg_id=mid, data_set=dsgen.enc(dsgen.make('a'), TS))
         elif svc == 'find':
             req = msggen.make('CFindRQMessage', sop_class=FIND, msg_id=mid, data_set=dsgen.enc(dsgen.make('query'), TS))
+            if str(out).startswith('nested'):
+                STUDY_FIND = '1.2.840.10008.5.1.4.1.2.2.1'
+                link2 = assoc.Link(sae, cae, {pc: (STUDY_FIND, TS)})
+
+                def nested():
+                    link2.scu.send(msggen.make('CFindRQMessage', sop_class=STUDY_FIND, msg_id=(mid + 4242) % 65536,
+                                               data_set=dsgen.enc(dsgen.make('query2'), TS)), pc)
+                    link2.serve()
+                sae.nested = nested
         elif svc == 'move':
             req = msggen.make('CMoveRQMessage', sop_class=MOVE, msg_id=mid, data_set=dsgen.enc(dsgen.make('query'), TS))
         elif svc == 'n_action':
@@ -213,7 +271,7 @@ def run_case(case):
             escaped = exc
         rsps = [(d, i) for d, i in link.log if d == 'scp->scu' and isinstance(i, list)]
         exp_pc = pc
-        exp_status = {'echo': 0x0110, 'store': 0xC000, 'n_action': 0x0110, 'n_event_report': 0x0110}.get(svc) if out == 'EHE' else (
+        exp_status = {'echo': 0x0110, 'store': 0xC000, 'n_action': 0x0110, 'n_event_report': 0x0110}.get(svc) if str(out).startswith('EHE') else (
             out if isinstance(out, int) else 0x0000)
         if escaped is not None:
             viol.append((sig + ':handler-error-escapes:%s' % (type(escaped).__name__,),
@@ -251,16 +309,16 @@ def run_case(case):
             if exp_status is not None and st != exp_status:
                 viol.append((sig + ':status', 'final status %r, handler outcome %r -> expected 0x%04X (%s)' % (
                     '0x%04X' % st if isinstance(st, int) else st, out, exp_status, where)))
-            if exp_status is None and out == 'EHE' and isinstance(st, int):
+            if exp_status is None and str(out).startswith('EHE') and isinstance(st, int):
                 typ = statuses.Status(st, msggen.msg_class('CFindRSPMessage' if svc == 'find' else 'CMoveRSPMessage')).status_type
                 if typ != 'Failure':
                     viol.append((sig + ':status', 'handler raised EventHandlingError but the final status 0x%04X is %s (%s)' % (st, typ, where)))
     if finals != 1:
         viol.append((sig + ':answer-count:%d' % min(finals, 2), '%d final responses for one request (outcome %s; %d responses in total) (%s)' % (
             finals, out, len(parsed), where)))
-    if svc in ('find', 'move') and out.startswith('ok'):
+    if svc in ('find', 'move') and (out.startswith('ok') or out.startswith('nested') or out.startswith('EHE-lazy')):
         npend = len(parsed) - finals
-        if npend != int(out[2:]):
+        if npend != int(out[-1]):
             viol.append((sig + ':pending-count', '%d pending responses for %s matches/sub-operations (%s)' % (npend, out[2:], where)))
     if svc == 'n_action' and out != 'EHE':
         sends = [x for x in sae.sublog if x[0] == 'sub-send']
